@@ -20,8 +20,7 @@ theorem rowCol_fresh (f : Nat → Expr) (h w y x : Nat) (hy : y < h) (hx : x < w
   unfold fullSlice at hfull
   simp only [specGetitem, specPair, C11CL.axisSel_idx h y hy, hfull, bind, Except.bind]
   rw [C11CL.sel_fresh f h w [y] (List.range w) (by simpa using hy) (by simp)]
-  simp only [Bool.true_and, Bool.false_eq_true, and_false, if_false, Bool.or_false, not_true_eq_false,
-    decide_false, decide_true, Bool.true_or, Bool.or_true, not_false_eq_true, if_true]
+  simp only [Bool.false_eq_true, and_false, if_false]
   simp only [List.flatMap_cons, List.flatMap_nil, List.append_nil]
   apply C14.pyIndex_nat
   rw [List.getElem?_map, List.getElem?_range hx]
@@ -29,12 +28,664 @@ theorem rowCol_fresh (f : Nat → Expr) (h w y x : Nat) (hy : y < h) (hx : x < w
 
 theorem rowCol_h (H W y x : Nat) (hy : y ≤ H) (hx : x < W) :
     rowCol (Frame.fresh 0 H W).horizontal (y : Int) (x : Int) = .ok (.bvar ((Seg.h y x).var 0 H W)) := by
-  have := rowCol_fresh (fun i => Expr.bvar (0 + i)) (H + 1) W y x (by omega) hx
+  have e : (Frame.fresh 0 H W).horizontal = ⟨H + 1, W, (List.range ((H + 1) * W)).map (fun i => Expr.bvar (0 + i))⟩ := rfl
+  rw [e, rowCol_fresh _ (H + 1) W y x (by omega) hx]
   simp only [Seg.var, Nat.add_assoc]
-  exact this
 
 theorem rowCol_v (H W y x : Nat) (hy : y < H) (hx : x ≤ W) :
     rowCol (Frame.fresh 0 H W).vertical (y : Int) (x : Int) = .ok (.bvar ((Seg.v y x).var 0 H W)) := by
-  have := rowCol_fresh (fun i => Expr.bvar (0 + (H + 1) * W + i)) H (W + 1) y x hy (by omega)
-  simp only [Seg.var, Nat.add_assoc] at this ⊢
+  have e : (Frame.fresh 0 H W).vertical
+      = ⟨H, W + 1, (List.range (H * (W + 1))).map (fun i => Expr.bvar (0 + (H + 1) * W + i))⟩ := rfl
+  rw [e, rowCol_fresh _ H (W + 1) y x hy (by omega)]
+  simp only [Seg.var, Nat.add_assoc]
+
+/-! ### Boolean operands with a known value -/
+
+/-- `e` is a well-typed Boolean operand (`BoolExpr` or Python bool) whose value under `σ` is `v σ`. -/
+def Good (e : Expr) (v : Asg → Bool) : Prop :=
+  e.isBoolLike = true ∧ wtB e = true ∧ ∀ σ, eval σ e = some (.b (v σ))
+
+theorem good_lit (b : Bool) : Good (.litB b) (fun _ => b) := ⟨rfl, rfl, fun σ => eval_litB σ b⟩
+theorem good_bvar (k : Nat) : Good (.bvar k) (fun σ => σ.b k) := ⟨rfl, rfl, fun σ => eval_bvar σ k⟩
+theorem good_not_bvar (k : Nat) : Good (.node .not [.bvar k]) (fun σ => !σ.b k) :=
+  ⟨rfl, rfl, fun σ => by simp [eval_node, evalOp]⟩
+
+/-- closed forms of Python `&` and `|` on Boolean operands. -/
+def andE (a b : Expr) : Expr :=
+  match a, b with
+  | .litB x, .litB y => .litB (x && y)
+  | _, _ => .node .and [a, b]
+
+def orE (a b : Expr) : Expr :=
+  match a, b with
+  | .litB x, .litB y => .litB (x || y)
+  | _, _ => .node .or [a, b]
+
+theorem andPy_eq {a b : Expr} (ha : a.isBoolLike = true) (hb : b.isBoolLike = true) :
+    andPy a b = .ok (andE a b) := by
+  unfold andPy andE
+  cases a <;> cases b <;> simp_all
+
+theorem orPy_eq {a b : Expr} (ha : a.isBoolLike = true) (hb : b.isBoolLike = true) :
+    orPy a b = .ok (orE a b) := by
+  unfold orPy orE
+  cases a <;> cases b <;> simp_all
+
+theorem good_and {a b : Expr} {va vb : Asg → Bool} (ha : Good a va) (hb : Good b vb) :
+    andPy a b = .ok (andE a b) ∧ Good (andE a b) (fun σ => va σ && vb σ) := by
+  have he := andPy_eq ha.1 hb.1
+  obtain ⟨e, he', hbl⟩ := andPy_ok_of_boolLike ha.1 hb.1
+  rw [he] at he'
+  cases he'
+  refine ⟨he, hbl, ?_, fun σ => eval_andPy he (ha.2.2 σ) (hb.2.2 σ)⟩
+  unfold andE
+  split
+  · rfl
+  · simp [wtB, wtBs, ha.2.1, hb.2.1]
+
+theorem good_or {a b : Expr} {va vb : Asg → Bool} (ha : Good a va) (hb : Good b vb) :
+    orPy a b = .ok (orE a b) ∧ Good (orE a b) (fun σ => va σ || vb σ) := by
+  refine ⟨orPy_eq ha.1 hb.1, ?_⟩
+  unfold orE
+  split
+  · next x y =>
+    refine ⟨rfl, rfl, fun σ => ?_⟩
+    have h1 := ha.2.2 σ
+    have h2 := hb.2.2 σ
+    simp only [eval_litB, Option.some.injEq, Val.b.injEq] at h1 h2
+    rw [eval_litB, h1, h2]
+  · refine ⟨rfl, by simp [wtB, wtBs, ha.2.1, hb.2.1], fun σ => ?_⟩
+    rw [eval_node]
+    simp only [List.map_cons, List.map_nil, ha.2.2 σ, hb.2.2 σ]
+    simp [evalOp, allBools]
+
+/-! ### `get_edge` -/
+
+section GetEdge
+variable (pb : Problem)
+
+/-- Value of the horizontal step `(y, c) - (y, c+1)` (false when it does not exist). -/
+def hv (σ : Asg) (y : Nat) (c : Int) : Bool :=
+  if 0 ≤ c ∧ c < ((pb.width - 1 : Nat) : Int) then σ.b ((Seg.h y c.toNat).var 0 (pb.height - 1) (pb.width - 1)) else false
+
+/-- Value of the vertical step `(r, x) - (r+1, x)` (false when it does not exist). -/
+def vv (σ : Asg) (r : Int) (x : Nat) : Bool :=
+  if 0 ≤ r ∧ r < ((pb.height - 1 : Nat) : Int) then σ.b ((Seg.v r.toNat x).var 0 (pb.height - 1) (pb.width - 1)) else false
+
+def negIf (neg : Bool) (b : Bool) : Bool := if neg then !b else b
+
+/-- closed form of `get_edge` on a horizontal / vertical step position. -/
+def hE (y : Nat) (c : Int) (neg : Bool) : Expr :=
+  if 0 ≤ c ∧ c < ((pb.width - 1 : Nat) : Int) then
+    (if neg then .node .not [.bvar ((Seg.h y c.toNat).var 0 (pb.height - 1) (pb.width - 1))]
+     else .bvar ((Seg.h y c.toNat).var 0 (pb.height - 1) (pb.width - 1)))
+  else .litB neg
+
+def vE (r : Int) (x : Nat) (neg : Bool) : Expr :=
+  if 0 ≤ r ∧ r < ((pb.height - 1 : Nat) : Int) then
+    (if neg then .node .not [.bvar ((Seg.v r.toNat x).var 0 (pb.height - 1) (pb.width - 1))]
+     else .bvar ((Seg.v r.toNat x).var 0 (pb.height - 1) (pb.width - 1)))
+  else .litB neg
+
+theorem notE_bvar (k : Nat) : notE (.bvar k) = .ok (.node .not [.bvar k]) := rfl
+
+theorem good_hE (y : Nat) (c : Int) (neg : Bool) : Good (hE pb y c neg) (fun σ => negIf neg (hv pb σ y c)) := by
+  unfold hE
+  by_cases hc : 0 ≤ c ∧ c < ((pb.width - 1 : Nat) : Int)
+  · rw [if_pos hc]
+    cases neg
+    · simpa [negIf, hv, hc] using good_bvar ((Seg.h y c.toNat).var 0 (pb.height - 1) (pb.width - 1))
+    · simpa [negIf, hv, hc] using good_not_bvar ((Seg.h y c.toNat).var 0 (pb.height - 1) (pb.width - 1))
+  · rw [if_neg hc]
+    have := good_lit neg
+    cases neg <;> simpa [negIf, hv, hc] using this
+
+theorem good_vE (r : Int) (x : Nat) (neg : Bool) : Good (vE pb r x neg) (fun σ => negIf neg (vv pb σ r x)) := by
+  unfold vE
+  by_cases hc : 0 ≤ r ∧ r < ((pb.height - 1 : Nat) : Int)
+  · rw [if_pos hc]
+    cases neg
+    · simpa [negIf, vv, hc] using good_bvar ((Seg.v r.toNat x).var 0 (pb.height - 1) (pb.width - 1))
+    · simpa [negIf, vv, hc] using good_not_bvar ((Seg.v r.toNat x).var 0 (pb.height - 1) (pb.width - 1))
+  · rw [if_neg hc]
+    have := good_lit neg
+    cases neg <;> simpa [negIf, vv, hc] using this
+
+theorem getEdge_h (hw : WellFormed pb) (y : Nat) (hy : y < pb.height) (c : Int) (Y X : Int)
+    (hY : Y = (y : Int) * 2) (hX : X = c * 2 + 1) (neg : Bool) :
+    getEdge pb (Frame.fresh 0 (pb.height - 1) (pb.width - 1)) Y X neg = .ok (hE pb y c neg) := by
+  obtain ⟨h1, h2, _, _⟩ := hw
+  subst hY hX
+  unfold getEdge hE
+  by_cases hc : 0 ≤ c ∧ c < ((pb.width - 1 : Nat) : Int)
+  · rw [if_pos (by omega), if_pos hc]
+    have hm : pyMod ((y : Int) * 2) 2 = 0 := by
+      simp only [pyMod, Int.fmod_eq_emod_of_nonneg _ (show (0 : Int) ≤ 2 by omega)]; omega
+    have hd1 : pyDiv ((y : Int) * 2) 2 = (y : Int) := by
+      simp only [pyDiv, Int.fdiv_eq_ediv_of_nonneg _ (show (0 : Int) ≤ 2 by omega)]; omega
+    have hd2 : pyDiv (c * 2 + 1) 2 = ((c.toNat : Nat) : Int) := by
+      simp only [pyDiv, Int.fdiv_eq_ediv_of_nonneg _ (show (0 : Int) ≤ 2 by omega)]; omega
+    rw [if_pos hm, hd1, hd2, rowCol_h _ _ y c.toNat (by omega) (by omega), ok_bind]
+    cases neg
+    · rfl
+    · simp only [if_true]; exact notE_bvar _
+  · rw [if_neg (by omega), if_neg hc]
+
+theorem getEdge_v (hw : WellFormed pb) (x : Nat) (hx : x < pb.width) (r : Int) (Y X : Int)
+    (hY : Y = r * 2 + 1) (hX : X = (x : Int) * 2) (neg : Bool) :
+    getEdge pb (Frame.fresh 0 (pb.height - 1) (pb.width - 1)) Y X neg = .ok (vE pb r x neg) := by
+  obtain ⟨h1, h2, _, _⟩ := hw
+  subst hY hX
+  unfold getEdge vE
+  by_cases hc : 0 ≤ r ∧ r < ((pb.height - 1 : Nat) : Int)
+  · rw [if_pos (by omega), if_pos hc]
+    have hm : ¬ pyMod (r * 2 + 1) 2 = 0 := by
+      simp only [pyMod, Int.fmod_eq_emod_of_nonneg _ (show (0 : Int) ≤ 2 by omega)]; omega
+    have hd1 : pyDiv (r * 2 + 1) 2 = ((r.toNat : Nat) : Int) := by
+      simp only [pyDiv, Int.fdiv_eq_ediv_of_nonneg _ (show (0 : Int) ≤ 2 by omega)]; omega
+    have hd2 : pyDiv ((x : Int) * 2) 2 = (x : Int) := by
+      simp only [pyDiv, Int.fdiv_eq_ediv_of_nonneg _ (show (0 : Int) ≤ 2 by omega)]; omega
+    rw [if_neg hm, hd1, hd2, rowCol_v _ _ r.toNat x (by omega) (by omega), ok_bind]
+    cases neg
+    · rfl
+    · simp only [if_true]; exact notE_bvar _
+  · rw [if_neg (by omega), if_neg hc]
+
+end GetEdge
+
+/-! ### closed form of the posted program -/
+
+section Cell
+variable (pb : Problem)
+
+def whiteE (y x : Nat) : Expr :=
+  orE (andE (andE (hE pb y ((x : Int) - 1) false) (hE pb y (x : Int) false))
+            (orE (hE pb y ((x : Int) - 2) true) (hE pb y ((x : Int) + 1) true)))
+      (andE (andE (vE pb ((y : Int) - 1) x false) (vE pb (y : Int) x false))
+            (orE (vE pb ((y : Int) - 2) x true) (vE pb ((y : Int) + 1) x true)))
+
+def blackE (y x : Nat) : Expr :=
+  andE (orE (andE (hE pb y ((x : Int) - 1) false) (hE pb y ((x : Int) - 2) false))
+            (andE (hE pb y (x : Int) false) (hE pb y ((x : Int) + 1) false)))
+       (orE (andE (vE pb ((y : Int) - 1) x false) (vE pb ((y : Int) - 2) x false))
+            (andE (vE pb (y : Int) x false) (vE pb ((y : Int) + 1) x false)))
+
+def whiteB (σ : Asg) (y x : Nat) : Bool :=
+  (hv pb σ y ((x : Int) - 1) && hv pb σ y (x : Int) && (!hv pb σ y ((x : Int) - 2) || !hv pb σ y ((x : Int) + 1))) ||
+  (vv pb σ ((y : Int) - 1) x && vv pb σ (y : Int) x && (!vv pb σ ((y : Int) - 2) x || !vv pb σ ((y : Int) + 1) x))
+
+def blackB (σ : Asg) (y x : Nat) : Bool :=
+  ((hv pb σ y ((x : Int) - 1) && hv pb σ y ((x : Int) - 2)) || (hv pb σ y (x : Int) && hv pb σ y ((x : Int) + 1))) &&
+  ((vv pb σ ((y : Int) - 1) x && vv pb σ ((y : Int) - 2) x) || (vv pb σ (y : Int) x && vv pb σ ((y : Int) + 1) x))
+
+theorem good_whiteE (y x : Nat) : Good (whiteE pb y x) (fun σ => whiteB pb σ y x) := by
+  have := (good_or
+    (good_and (good_and (good_hE pb y ((x : Int) - 1) false) (good_hE pb y (x : Int) false)).2
+      (good_or (good_hE pb y ((x : Int) - 2) true) (good_hE pb y ((x : Int) + 1) true)).2).2
+    (good_and (good_and (good_vE pb ((y : Int) - 1) x false) (good_vE pb (y : Int) x false)).2
+      (good_or (good_vE pb ((y : Int) - 2) x true) (good_vE pb ((y : Int) + 1) x true)).2).2).2
+  simpa [negIf, whiteE, whiteB] using this
+
+theorem good_blackE (y x : Nat) : Good (blackE pb y x) (fun σ => blackB pb σ y x) := by
+  have := (good_and
+    (good_or (good_and (good_hE pb y ((x : Int) - 1) false) (good_hE pb y ((x : Int) - 2) false)).2
+      (good_and (good_hE pb y (x : Int) false) (good_hE pb y ((x : Int) + 1) false)).2).2
+    (good_or (good_and (good_vE pb ((y : Int) - 1) x false) (good_vE pb ((y : Int) - 2) x false)).2
+      (good_and (good_vE pb (y : Int) x false) (good_vE pb ((y : Int) + 1) x false)).2).2).2
+  simpa [negIf, blackE, blackB] using this
+
+/-- What the double loop posts for one cell. -/
+def cellE (p : Nat × Nat) : List Expr :=
+  if val pb p.1 p.2 = 1 then [whiteE pb p.1 p.2] else if val pb p.1 p.2 = 2 then [blackE pb p.1 p.2] else []
+
+def extra : List Expr := ((cellsOf pb.height pb.width).map (cellE pb)).flatten
+
+theorem tableGet_eq (hw : WellFormed pb) {y x : Nat} (hy : y < pb.height) (hx : x < pb.width) :
+    tableGet pb.problem (y : Int) (x : Int) = .ok (val pb y x) := by
+  obtain ⟨_, _, hlen, hrows⟩ := hw
+  unfold tableGet val
+  have hy' : y < pb.problem.length := by rw [hlen]; exact hy
+  have hrow : pb.problem[y]? = some pb.problem[y] := List.getElem?_eq_getElem hy'
+  have hl : pb.problem[y].length = pb.width := hrows _ (List.getElem_mem hy')
+  have hx' : x < pb.problem[y].length := by rw [hl]; exact hx
+  rw [C14.pyIndex_nat _ _ _ hrow, ok_bind, C14.pyIndex_nat _ _ _ (List.getElem?_eq_getElem hx')]
+  simp [List.getD, hrow, List.getElem?_eq_getElem hx']
+
+theorem cellCs_eq (hw : WellFormed pb) {p : Nat × Nat} (hp : p ∈ cellsOf pb.height pb.width) :
+    cellCs pb (Frame.fresh 0 (pb.height - 1) (pb.width - 1)) p = .ok (cellE pb p) := by
+  obtain ⟨hy, hx⟩ := mem_cellsOf.mp hp
+  obtain ⟨y, x⟩ := p
+  simp only [] at hy hx
+  -- the twelve `get_edge` calls
+  have eh (c : Int) (X : Int) (hX : X = c * 2 + 1) (neg : Bool) :=
+    getEdge_h pb hw y hy c ((y : Int) * 2) X rfl hX neg
+  have ev (r : Int) (Y : Int) (hY : Y = r * 2 + 1) (neg : Bool) :=
+    getEdge_v pb hw x hx r Y ((x : Int) * 2) hY rfl neg
+  have h1 := eh ((x : Int) - 1) ((x : Int) * 2 - 1) (by omega)
+  have h2 := eh (x : Int) ((x : Int) * 2 + 1) (by omega)
+  have h3 := eh ((x : Int) - 2) ((x : Int) * 2 - 3) (by omega)
+  have h4 := eh ((x : Int) + 1) ((x : Int) * 2 + 3) (by omega)
+  have v1 := ev ((y : Int) - 1) ((y : Int) * 2 - 1) (by omega)
+  have v2 := ev (y : Int) ((y : Int) * 2 + 1) (by omega)
+  have v3 := ev ((y : Int) - 2) ((y : Int) * 2 - 3) (by omega)
+  have v4 := ev ((y : Int) + 1) ((y : Int) * 2 + 3) (by omega)
+  -- Boolean-likeness of the intermediate operands
+  have gh (c : Int) (neg : Bool) := (good_hE pb y c neg)
+  have gv (r : Int) (neg : Bool) := (good_vE pb r x neg)
+  unfold cellCs cellE
+  simp only []
+  rw [tableGet_eq pb hw hy hx, ok_bind]
+  by_cases hv1 : val pb y x = 1
+  · simp only [hv1, if_true]
+    simp only [h1, h2, h3, h4, v1, v2, v3, v4, bind, Except.bind]
+    have a1 := good_and (gh ((x : Int) - 1) false) (gh (x : Int) false)
+    have a2 := good_or (gh ((x : Int) - 2) true) (gh ((x : Int) + 1) true)
+    have a := good_and a1.2 a2.2
+    have b1 := good_and (gv ((y : Int) - 1) false) (gv (y : Int) false)
+    have b2 := good_or (gv ((y : Int) - 2) true) (gv ((y : Int) + 1) true)
+    have b := good_and b1.2 b2.2
+    have c := good_or a.2 b.2
+    simp only [a1.1, a2.1, a.1, b1.1, b2.1, b.1, c.1]
+    have hbl : (whiteE pb y x).isBoolLike = true := c.2.1
+    unfold whiteE at hbl ⊢
+    simp only [ensure1, hbl, if_true]
+  · by_cases hv2 : val pb y x = 2
+    · rw [hv2, if_neg (by decide : ¬ ((2 : Int) = 1)), if_pos rfl, if_neg (by decide : ¬ ((2 : Int) = 1)), if_pos rfl]
+      simp only [h1, h2, h3, h4, v1, v2, v3, v4, bind, Except.bind]
+      have d0 := good_and (gh ((x : Int) - 1) false) (gh ((x : Int) - 2) false)
+      have d1 := good_and (gv ((y : Int) - 1) false) (gv ((y : Int) - 2) false)
+      have d2 := good_and (gh (x : Int) false) (gh ((x : Int) + 1) false)
+      have d3 := good_and (gv (y : Int) false) (gv ((y : Int) + 1) false)
+      have o1 := good_or d0.2 d2.2
+      have o2 := good_or d1.2 d3.2
+      have c := good_and o1.2 o2.2
+      simp only [d0.1, d1.1, d2.1, d3.1, o1.1, o2.1, c.1]
+      have hbl : (blackE pb y x).isBoolLike = true := c.2.1
+      unfold blackE at hbl ⊢
+      simp only [ensure1, hbl, if_true]
+    · simp only [hv1, hv2, if_false]
+
+/-- Closed form of the posted program. -/
+theorem program_eq (hw : WellFormed pb) :
+    program pb = .ok
+      { decls := List.replicate (Frame.numVars (pb.height - 1) (pb.width - 1)) .bool ++ (cyc (pb.height - 1) (pb.width - 1)).decls,
+        cs := (cyc (pb.height - 1) (pb.width - 1)).cs ++ extra pb,
+        keys := List.range (Frame.numVars (pb.height - 1) (pb.width - 1)) } := by
+  have hw' := hw
+  obtain ⟨h1, h2, _, _⟩ := hw
+  unfold program
+  rw [if_neg (by omega)]
+  simp only [frameKeys_eq, setup_eq, bind, Except.bind]
+  rw [mapM_eq_ok_map (g := cellE pb) (fun p hp => cellCs_eq pb hw' hp)]
+  rfl
+
+end Cell
+
+/-! ### Geometry of a loop around a cell -/
+
+/-- the opposite direction. -/
+def opp : Dir → Dir
+  | .up => .down | .down => .up | .left => .right | .right => .left
+
+theorem forall_dir (P : Dir → Prop) : (∀ d, P d) ↔ (P .up ∧ P .down ∧ P .left ∧ P .right) :=
+  ⟨fun h => ⟨h _, h _, h _, h _⟩, fun h d => by cases d <;> simp [h.1, h.2.1, h.2.2.1, h.2.2.2]⟩
+
+theorem exists_dir (P : Dir → Prop) : (∃ d, P d) ↔ (P .up ∨ P .down ∨ P .left ∨ P .right) := by
+  constructor
+  · rintro ⟨d, h⟩; cases d <;> simp [h]
+  · rintro (h | h | h | h) <;> exact ⟨_, h⟩
+
+/-- Following an arm leads to a lattice point from which the same segment leads back. -/
+theorem arm_back (H W : Nat) (on : Seg → Bool) (p : Pt) (hp : PtValid H W p) (d : Dir)
+    (h : arm H W on p d = true) : PtValid H W (nb p d) ∧ arm H W on (nb p d) (opp d) = true := by
+  obtain ⟨y, x⟩ := p
+  simp only [PtValid] at hp
+  cases d <;> simp only [arm, nb, opp, PtValid, Bool.and_eq_true, decide_eq_true_eq] at h ⊢
+  · exact ⟨⟨by omega, hp.2⟩, decide_eq_true (by omega), h.2⟩
+  · refine ⟨⟨by omega, hp.2⟩, decide_eq_true (by omega), ?_⟩
+    rw [Nat.add_sub_cancel]; exact h.2
+  · exact ⟨⟨hp.1, by omega⟩, decide_eq_true (by omega), h.2⟩
+  · refine ⟨⟨hp.1, by omega⟩, decide_eq_true (by omega), ?_⟩
+    rw [Nat.add_sub_cancel]; exact h.2
+
+/-- A loop that enters a cell from direction `d` either continues straight (leaves in the opposite direction) or
+turns. -/
+theorem enter (H W : Nat) (on : Seg → Bool) (hl : IsLoop H W on) (q : Pt) (hq : PtValid H W q) (d : Dir)
+    (hin : arm H W on q d = true) :
+    turn H W on q = !arm H W on q (opp d) ∧ straight H W on q = arm H W on q (opp d) := by
+  have hdeg := C11LoopDeg.arms_of_loop H W on hl q hq
+  simp only [] at hdeg
+  unfold turn straight
+  cases d <;> simp only [opp] at hin ⊢ <;>
+    (generalize arm H W on q .up = u at *
+     generalize arm H W on q .down = dn at *
+     generalize arm H W on q .left = l at *
+     generalize arm H W on q .right = r at *
+     revert hdeg hin
+     cases u <;> cases dn <;> cases l <;> cases r <;> simp [Bool.toNat])
+
+theorem opp_opp (d : Dir) : opp (opp d) = d := by cases d <;> rfl
+
+/-- The white-circle condition in terms of arms: straight through, and not straight on in one of the two
+neighbouring cells on the line. -/
+def whiteF (H W : Nat) (on : Seg → Bool) (p : Pt) : Bool :=
+  (arm H W on p .left && arm H W on p .right &&
+    (!arm H W on (nb p .left) .left || !arm H W on (nb p .right) .right)) ||
+  (arm H W on p .up && arm H W on p .down &&
+    (!arm H W on (nb p .up) .up || !arm H W on (nb p .down) .down))
+
+/-- The black-circle condition in terms of arms. -/
+def blackF (H W : Nat) (on : Seg → Bool) (p : Pt) : Bool :=
+  ((arm H W on p .left && arm H W on (nb p .left) .left) || (arm H W on p .right && arm H W on (nb p .right) .right)) &&
+  ((arm H W on p .up && arm H W on (nb p .up) .up) || (arm H W on p .down && arm H W on (nb p .down) .down))
+
+theorem white_iff (H W : Nat) (on : Seg → Bool) (hl : IsLoop H W on) (p : Pt) (hp : PtValid H W p) :
+    whiteF H W on p = true ↔ White H W on p := by
+  have key : ∀ d, arm H W on p d = true → turn H W on (nb p d) = !arm H W on (nb p d) d := by
+    intro d h
+    obtain ⟨hv, hb⟩ := arm_back H W on p hp d h
+    have := (enter H W on hl (nb p d) hv (opp d) hb).1
+    rwa [opp_opp] at this
+  have hdeg := C11LoopDeg.arms_of_loop H W on hl p hp
+  simp only [] at hdeg
+  unfold White
+  rw [exists_dir]
+  have e : ∀ d, (arm H W on p d = true ∧ turn H W on (nb p d) = true) ↔
+      (arm H W on p d = true ∧ arm H W on (nb p d) d = false) := by
+    intro d
+    constructor
+    · rintro ⟨h1, h2⟩; rw [key d h1] at h2; exact ⟨h1, by simpa using h2⟩
+    · rintro ⟨h1, h2⟩; exact ⟨h1, by rw [key d h1, h2]; rfl⟩
+  rw [e .up, e .down, e .left, e .right]
+  unfold whiteF straight
+  generalize arm H W on p .up = u at *
+  generalize arm H W on p .down = dn at *
+  generalize arm H W on p .left = l at *
+  generalize arm H W on p .right = r at *
+  generalize arm H W on (nb p .up) .up = cu
+  generalize arm H W on (nb p .down) .down = cd
+  generalize arm H W on (nb p .left) .left = cl
+  generalize arm H W on (nb p .right) .right = cr
+  revert hdeg
+  cases u <;> cases dn <;> cases l <;> cases r <;> cases cu <;> cases cd <;> cases cl <;> cases cr <;>
+    simp [Bool.toNat]
+
+theorem black_iff (H W : Nat) (on : Seg → Bool) (hl : IsLoop H W on) (p : Pt) (hp : PtValid H W p) :
+    blackF H W on p = true ↔ Black H W on p := by
+  have key : ∀ d, arm H W on p d = true → straight H W on (nb p d) = arm H W on (nb p d) d := by
+    intro d h
+    obtain ⟨hv, hb⟩ := arm_back H W on p hp d h
+    have := (enter H W on hl (nb p d) hv (opp d) hb).2
+    rwa [opp_opp] at this
+  have hdeg := C11LoopDeg.arms_of_loop H W on hl p hp
+  simp only [] at hdeg
+  unfold Black
+  rw [forall_dir]
+  have e : ∀ d, (arm H W on p d = true → straight H W on (nb p d) = true) ↔
+      (arm H W on p d = true → arm H W on (nb p d) d = true) := by
+    intro d
+    constructor
+    · intro h h1; rw [← key d h1]; exact h h1
+    · intro h h1; rw [key d h1]; exact h h1
+  rw [e .up, e .down, e .left, e .right]
+  unfold blackF turn
+  generalize arm H W on p .up = u at *
+  generalize arm H W on p .down = dn at *
+  generalize arm H W on p .left = l at *
+  generalize arm H W on p .right = r at *
+  generalize arm H W on (nb p .up) .up = cu
+  generalize arm H W on (nb p .down) .down = cd
+  generalize arm H W on (nb p .left) .left = cl
+  generalize arm H W on (nb p .right) .right = cr
+  revert hdeg
+  cases u <;> cases dn <;> cases l <;> cases r <;> cases cu <;> cases cd <;> cases cl <;> cases cr <;>
+    simp [Bool.toNat]
+
+/-! ### The clue constraints say what the rules say -/
+
+section Sem
+variable (pb : Problem)
+
+local notation "HH" => pb.height - 1
+local notation "WW" => pb.width - 1
+
+theorem hv_right (σ : Asg) (y x : Nat) :
+    hv pb σ y (x : Int) = arm HH WW (onOf HH WW σ) (y, x) .right := by
+  unfold hv arm onOf
+  by_cases h : x < pb.width - 1
+  · rw [if_pos (by omega)]; simp [h]
+  · rw [if_neg (by omega)]; simp [h]
+
+theorem hv_left (σ : Asg) (y x : Nat) (hx : x ≤ pb.width - 1) :
+    hv pb σ y ((x : Int) - 1) = arm HH WW (onOf HH WW σ) (y, x) .left := by
+  unfold hv arm onOf
+  by_cases h : 0 < x
+  · rw [if_pos (by omega)]
+    have : ((x : Int) - 1).toNat = x - 1 := by omega
+    simp [h, this]
+  · rw [if_neg (by omega)]; simp [h]
+
+theorem hv_left2 (σ : Asg) (y x : Nat) (hx : x ≤ pb.width - 1) :
+    hv pb σ y ((x : Int) - 2) = arm HH WW (onOf HH WW σ) (nb (y, x) .left) .left := by
+  by_cases h : 0 < x
+  · have := hv_left pb σ y (x - 1) (by omega)
+    rw [show (((x - 1 : Nat) : Int) - 1) = (x : Int) - 2 by omega] at this
+    exact this
+  · have hx0 : x = 0 := by omega
+    subst hx0
+    unfold hv arm nb
+    rw [if_neg (by omega)]; simp
+
+theorem hv_right2 (σ : Asg) (y x : Nat) :
+    hv pb σ y ((x : Int) + 1) = arm HH WW (onOf HH WW σ) (nb (y, x) .right) .right := by
+  have := hv_right pb σ y (x + 1)
+  rw [show (((x + 1 : Nat) : Int)) = (x : Int) + 1 by omega] at this
   exact this
+
+theorem vv_down (σ : Asg) (y x : Nat) :
+    vv pb σ (y : Int) x = arm HH WW (onOf HH WW σ) (y, x) .down := by
+  unfold vv arm onOf
+  by_cases h : y < pb.height - 1
+  · rw [if_pos (by omega)]; simp [h]
+  · rw [if_neg (by omega)]; simp [h]
+
+theorem vv_up (σ : Asg) (y x : Nat) (hy : y ≤ pb.height - 1) :
+    vv pb σ ((y : Int) - 1) x = arm HH WW (onOf HH WW σ) (y, x) .up := by
+  unfold vv arm onOf
+  by_cases h : 0 < y
+  · rw [if_pos (by omega)]
+    have : ((y : Int) - 1).toNat = y - 1 := by omega
+    simp [h, this]
+  · rw [if_neg (by omega)]; simp [h]
+
+theorem vv_up2 (σ : Asg) (y x : Nat) (hy : y ≤ pb.height - 1) :
+    vv pb σ ((y : Int) - 2) x = arm HH WW (onOf HH WW σ) (nb (y, x) .up) .up := by
+  by_cases h : 0 < y
+  · have := vv_up pb σ (y - 1) x (by omega)
+    rw [show (((y - 1 : Nat) : Int) - 1) = (y : Int) - 2 by omega] at this
+    exact this
+  · have hy0 : y = 0 := by omega
+    subst hy0
+    unfold vv arm nb
+    rw [if_neg (by omega)]; simp
+
+theorem vv_down2 (σ : Asg) (y x : Nat) :
+    vv pb σ ((y : Int) + 1) x = arm HH WW (onOf HH WW σ) (nb (y, x) .down) .down := by
+  have := vv_down pb σ (y + 1) x
+  rw [show (((y + 1 : Nat) : Int)) = (y : Int) + 1 by omega] at this
+  exact this
+
+theorem whiteB_eq (σ : Asg) (y x : Nat) (hy : y ≤ pb.height - 1) (hx : x ≤ pb.width - 1) :
+    whiteB pb σ y x = whiteF HH WW (onOf HH WW σ) (y, x) := by
+  unfold whiteB whiteF
+  rw [hv_left pb σ y x hx, hv_right, hv_left2 pb σ y x hx, hv_right2, vv_up pb σ y x hy, vv_down,
+    vv_up2 pb σ y x hy, vv_down2]
+
+theorem blackB_eq (σ : Asg) (y x : Nat) (hy : y ≤ pb.height - 1) (hx : x ≤ pb.width - 1) :
+    blackB pb σ y x = blackF HH WW (onOf HH WW σ) (y, x) := by
+  unfold blackB blackF
+  rw [hv_left pb σ y x hx, hv_right, hv_left2 pb σ y x hx, hv_right2, vv_up pb σ y x hy, vv_down,
+    vv_up2 pb σ y x hy, vv_down2]
+
+/-- Rules 2-4 as a predicate on the drawn steps. -/
+def G (on : Seg → Bool) : Prop :=
+  ∀ y, y < pb.height → ∀ x, x < pb.width →
+    (val pb y x = 1 → White HH WW on (y, x)) ∧ (val pb y x = 2 → Black HH WW on (y, x))
+
+theorem extra_iff (hw : WellFormed pb) (σ : Asg) (hl : IsLoop HH WW (onOf HH WW σ)) :
+    (∀ c ∈ extra pb, eval σ c = some (.b true)) ↔ G pb (onOf HH WW σ) := by
+  obtain ⟨h1, h2, _, _⟩ := hw
+  have hvalid : ∀ y x, y < pb.height → x < pb.width → PtValid HH WW (y, x) := by
+    intro y x hy hx; exact ⟨by simp only []; omega, by simp only []; omega⟩
+  have hW : ∀ y x, y < pb.height → x < pb.width →
+      (eval σ (whiteE pb y x) = some (.b true) ↔ White HH WW (onOf HH WW σ) (y, x)) := by
+    intro y x hy hx
+    rw [(good_whiteE pb y x).2.2 σ]
+    simp only []
+    rw [whiteB_eq pb σ y x (by omega) (by omega),
+      ← white_iff _ _ _ hl _ (hvalid y x hy hx)]
+    simp
+  have hB : ∀ y x, y < pb.height → x < pb.width →
+      (eval σ (blackE pb y x) = some (.b true) ↔ Black HH WW (onOf HH WW σ) (y, x)) := by
+    intro y x hy hx
+    rw [(good_blackE pb y x).2.2 σ]
+    simp only []
+    rw [blackB_eq pb σ y x (by omega) (by omega),
+      ← black_iff _ _ _ hl _ (hvalid y x hy hx)]
+    simp
+  unfold extra G
+  constructor
+  · intro h y hy x hx
+    have hmem : ∀ c ∈ cellE pb (y, x), eval σ c = some (.b true) := by
+      intro c hc
+      apply h
+      rw [List.mem_flatten]
+      exact ⟨cellE pb (y, x), List.mem_map.mpr ⟨(y, x), mem_cellsOf.mpr ⟨hy, hx⟩, rfl⟩, hc⟩
+    constructor
+    · intro hv1
+      apply (hW y x hy hx).mp
+      apply hmem
+      simp [cellE, hv1]
+    · intro hv2
+      apply (hB y x hy hx).mp
+      apply hmem
+      simp [cellE, hv2]
+  · intro h c hc
+    rw [List.mem_flatten] at hc
+    obtain ⟨l, hl', hcl⟩ := hc
+    obtain ⟨p, hp, rfl⟩ := List.mem_map.mp hl'
+    obtain ⟨hy, hx⟩ := mem_cellsOf.mp hp
+    unfold cellE at hcl
+    split at hcl
+    · next hv1 =>
+      simp only [List.mem_singleton] at hcl
+      subst hcl
+      exact (hW _ _ hy hx).mpr ((h _ hy _ hx).1 hv1)
+    · split at hcl
+      · next hv2 =>
+        simp only [List.mem_singleton] at hcl
+        subst hcl
+        exact (hB _ _ hy hx).mpr ((h _ hy _ hx).2 hv2)
+      · simp at hcl
+
+end Sem
+
+/-! ### Only the segments of the lattice matter -/
+
+theorem arm_congr (H W : Nat) (on on' : Seg → Bool) (h : ∀ s, s.Valid H W → on s = on' s)
+    (p : Pt) (hp : PtValid H W p) (d : Dir) : arm H W on p d = arm H W on' p d := by
+  obtain ⟨y, x⟩ := p
+  simp only [PtValid] at hp
+  cases d <;> unfold arm <;> simp only []
+  · by_cases hg : 0 < y
+    · rw [h (Seg.v (y - 1) x) ⟨by omega, hp.2⟩]
+    · simp [hg]
+  · by_cases hg : y < H
+    · rw [h (Seg.v y x) ⟨hg, hp.2⟩]
+    · simp [hg]
+  · by_cases hg : 0 < x
+    · rw [h (Seg.h y (x - 1)) ⟨hp.1, by omega⟩]
+    · simp [hg]
+  · by_cases hg : x < W
+    · rw [h (Seg.h y x) ⟨hp.1, hg⟩]
+    · simp [hg]
+
+theorem straight_congr (H W : Nat) (on on' : Seg → Bool) (h : ∀ s, s.Valid H W → on s = on' s)
+    (p : Pt) (hp : PtValid H W p) : straight H W on p = straight H W on' p := by
+  unfold straight
+  rw [arm_congr H W on on' h p hp .left, arm_congr H W on on' h p hp .right,
+    arm_congr H W on on' h p hp .up, arm_congr H W on on' h p hp .down]
+
+theorem turn_congr (H W : Nat) (on on' : Seg → Bool) (h : ∀ s, s.Valid H W → on s = on' s)
+    (p : Pt) (hp : PtValid H W p) : turn H W on p = turn H W on' p := by
+  unfold turn
+  rw [arm_congr H W on on' h p hp .left, arm_congr H W on on' h p hp .right,
+    arm_congr H W on on' h p hp .up, arm_congr H W on on' h p hp .down]
+
+theorem white_congr (H W : Nat) (on on' : Seg → Bool) (h : ∀ s, s.Valid H W → on s = on' s)
+    (p : Pt) (hp : PtValid H W p) : White H W on p → White H W on' p := by
+  rintro ⟨hs, d, ha, ht⟩
+  refine ⟨by rw [← straight_congr H W on on' h p hp]; exact hs, d,
+    by rw [← arm_congr H W on on' h p hp d]; exact ha, ?_⟩
+  rw [← turn_congr H W on on' h _ (arm_back H W on p hp d ha).1]; exact ht
+
+theorem black_congr (H W : Nat) (on on' : Seg → Bool) (h : ∀ s, s.Valid H W → on s = on' s)
+    (p : Pt) (hp : PtValid H W p) : Black H W on p → Black H W on' p := by
+  rintro ⟨ht, hall⟩
+  refine ⟨by rw [← turn_congr H W on on' h p hp]; exact ht, ?_⟩
+  intro d ha'
+  have ha : arm H W on p d = true := by rw [arm_congr H W on on' h p hp d]; exact ha'
+  rw [← straight_congr H W on on' h _ (arm_back H W on p hp d ha).1]
+  exact hall d ha
+
+theorem G_congr (pb : Problem) (hw : WellFormed pb) (on on' : Seg → Bool)
+    (h : ∀ s, s.Valid (pb.height - 1) (pb.width - 1) → on s = on' s) : G pb on ↔ G pb on' := by
+  obtain ⟨h1, h2, _, _⟩ := hw
+  have hvalid : ∀ y x, y < pb.height → x < pb.width → PtValid (pb.height - 1) (pb.width - 1) (y, x) := by
+    intro y x hy hx; exact ⟨by simp only []; omega, by simp only []; omega⟩
+  have h' : ∀ s, s.Valid (pb.height - 1) (pb.width - 1) → on' s = on s := fun s hs => (h s hs).symm
+  unfold G
+  constructor
+  · intro hg y hy x hx
+    exact ⟨fun hv => white_congr _ _ on on' h _ (hvalid y x hy hx) ((hg y hy x hx).1 hv),
+           fun hv => black_congr _ _ on on' h _ (hvalid y x hy hx) ((hg y hy x hx).2 hv)⟩
+  · intro hg y hy x hx
+    exact ⟨fun hv => white_congr _ _ on' on h' _ (hvalid y x hy hx) ((hg y hy x hx).1 hv),
+           fun hv => black_congr _ _ on' on h' _ (hvalid y x hy hx) ((hg y hy x hx).2 hv)⟩
+
+theorem extra_wt (pb : Problem) : ∀ c ∈ extra pb, wtB c = true := by
+  intro c hc
+  unfold extra at hc
+  rw [List.mem_flatten] at hc
+  obtain ⟨l, hl, hcl⟩ := hc
+  obtain ⟨p, _, rfl⟩ := List.mem_map.mp hl
+  unfold cellE at hcl
+  split at hcl
+  · simp only [List.mem_singleton] at hcl
+    subst hcl
+    exact (good_whiteE pb p.1 p.2).2.1
+  · split at hcl
+    · simp only [List.mem_singleton] at hcl
+      subst hcl
+      exact (good_blackE pb p.1 p.2).2.1
+    · simp at hcl
+
+theorem main (pb : Problem) (hw : WellFormed pb) (P : PuzzleProg) (hP : program pb = .ok P) :
+    EncodesRules P (Rules pb) ∧ P.KeysOk ∧ (∀ c ∈ P.cs, wtB c = true) := by
+  rw [program_eq pb hw] at hP
+  cases hP
+  refine ⟨?_, keysOk_frame _ _ _ _, ?_⟩
+  · have h := encodes_loop' (pb.height - 1) (pb.width - 1) (extra pb) (G pb) (G_congr pb hw)
+      (fun σ hl _ => extra_iff pb hw σ hl)
+    intro a
+    rw [h a]
+    unfold Rules RulesOn
+    rfl
+  · intro c hc
+    rcases List.mem_append.mp hc with h | h
+    · exact cyc_wt _ _ c h
+    · exact extra_wt pb c h
+
+theorem total (pb : Problem) (hw : WellFormed pb) : ∃ P, program pb = .ok P := ⟨_, program_eq pb hw⟩
+
+end Cspuz.Proofs.C11Masyu
